@@ -10,7 +10,6 @@ import (
 	"bytes"
 	"compress/zlib"
 	"encoding/binary"
-	"errors"
 	"fmt"
 	"hash/adler32"
 	"io"
@@ -75,54 +74,36 @@ func (d *refDeflater) block(raw []byte) []byte {
 	return out
 }
 
-// refInflater is an independent receiver-side header compression context. It
-// never reads past the bytes it was fed for the current frame unless the
-// caller asks for more than the block contains (then the context is dead,
-// exactly as on a real connection).
+// refInflater is an independent receiver-side header compression context.
+// It keeps every compressed block of the connection and re-inflates the whole
+// history for each frame, so that it sees exactly the bytes a frame's block
+// decompresses to (no read-ahead questions, no sticky decoder state).
 type refInflater struct {
-	feed bytes.Buffer
-	zr   io.ReadCloser
-	dead error
+	all     []byte
+	prevOut int
 }
 
-func (u *refInflater) add(comp []byte) { u.feed.Write(comp) }
-
-func (u *refInflater) read(p []byte) error {
-	if u.dead != nil {
-		return u.dead
+// frameBlock returns the decompressed bytes contributed by this frame's block.
+func (u *refInflater) frameBlock(comp []byte) []byte {
+	u.all = append(u.all, comp...)
+	out := inflateBytes(u.all, 256<<20)
+	if len(out) < u.prevOut {
+		return nil
 	}
-	if u.zr == nil {
-		zr, err := zlib.NewReaderDict(&u.feed, spdyDict())
-		if err != nil {
-			u.dead = err
-			return err
-		}
-		u.zr = zr
-	}
-	if _, err := io.ReadFull(u.zr, p); err != nil {
-		u.dead = err
-		return err
-	}
-	return nil
+	raw := out[u.prevOut:]
+	u.prevOut = len(out)
+	return raw
 }
 
-// inflateAll returns how many bytes a fresh context can get out of comp
-// (at most limit) and how many of them are NUL.
-func inflateAll(comp []byte, limit int) (n int, nul int) {
+// inflateBytes returns what a fresh context gets out of comp (at most limit bytes).
+func inflateBytes(comp []byte, limit int) []byte {
 	zr, err := zlib.NewReaderDict(bytes.NewReader(comp), spdyDict())
 	if err != nil {
-		return 0, 0
+		return nil
 	}
-	buf := make([]byte, 32<<10)
-	for n < limit {
-		k, err := zr.Read(buf)
-		n += k
-		nul += bytes.Count(buf[:k], []byte{0})
-		if err != nil || k == 0 {
-			break
-		}
-	}
-	return
+	var out bytes.Buffer
+	io.CopyN(&out, zr, int64(limit))
+	return out.Bytes()
 }
 
 // ---- header blocks ----
@@ -142,36 +123,27 @@ func rawBlock(pairs []refPair) []byte {
 	return b.Bytes()
 }
 
-var errRefOver = errors.New("declared length exceeds reference cap")
-
-const refCap = 8 << 20
-
-// readBlock parses one name/value block from the context. A declared length
-// that the block does not contain yields an error (and kills the context).
-func (u *refInflater) readBlock() ([]refPair, error) {
-	var w [4]byte
-	if err := u.read(w[:]); err != nil {
-		return nil, fmt.Errorf("pair count: %w", err)
+// parseBlock parses a decompressed name/value block strictly: every declared
+// length must be present and nothing may be left over.
+func parseBlock(raw []byte) ([]refPair, error) {
+	if len(raw) < 4 {
+		return nil, fmt.Errorf("block of %d bytes has no pair count", len(raw))
 	}
-	n := binary.BigEndian.Uint32(w[:])
-	if n > 1<<16 {
-		return nil, fmt.Errorf("pair count %d", n)
-	}
+	n := binary.BigEndian.Uint32(raw)
+	raw = raw[4:]
 	var pairs []refPair
 	rd := func(what string) (string, error) {
-		if err := u.read(w[:]); err != nil {
-			return "", fmt.Errorf("%s length: %w", what, err)
+		if len(raw) < 4 {
+			return "", fmt.Errorf("%s length prefix missing (%d bytes left)", what, len(raw))
 		}
-		l := binary.BigEndian.Uint32(w[:])
-		if l > refCap {
-			u.dead = errRefOver
-			return "", fmt.Errorf("%s length %d: %w", what, l, errRefOver)
+		l := binary.BigEndian.Uint32(raw)
+		raw = raw[4:]
+		if uint64(l) > uint64(len(raw)) {
+			return "", fmt.Errorf("%s declares %d bytes but only %d remain in the block", what, l, len(raw))
 		}
-		b := make([]byte, l)
-		if err := u.read(b); err != nil {
-			return "", fmt.Errorf("%s of declared length %d: %w", what, l, err)
-		}
-		return string(b), nil
+		s := string(raw[:l])
+		raw = raw[l:]
+		return s, nil
 	}
 	for i := uint32(0); i < n; i++ {
 		name, err := rd("name")
@@ -183,6 +155,9 @@ func (u *refInflater) readBlock() ([]refPair, error) {
 			return pairs, err
 		}
 		pairs = append(pairs, refPair{name, val})
+	}
+	if len(raw) != 0 {
+		return pairs, fmt.Errorf("%d bytes left in the block after the %d declared pairs", len(raw), n)
 	}
 	return pairs, nil
 }
@@ -256,50 +231,63 @@ func headerPrefixLen(typ uint16) int {
 
 // refMaxDeclared walks a header-bearing frame the way any SPDY/3 reader must
 // (first frame of a fresh context) and returns the largest name/value length
-// prefix it meets before the block ends or becomes inconsistent.
-func refMaxDeclared(a []byte) uint32 {
-	f, _, err := refSplit(a)
+// prefix it meets before the block ends or becomes inconsistent, and which
+// kind of prefix ("name"/"value") declares more bytes than the block holds.
+func refMaxDeclared(stream []byte) (uint32, string) {
+	f, _, err := refSplit(stream)
 	if err != nil || !f.control {
-		return 0
+		return 0, ""
 	}
 	pl := headerPrefixLen(f.typ)
-	if pl < 0 || len(f.payload) < pl {
-		// length underflow: the reader may run into the following bytes
-		if pl >= 0 && len(a) >= 8+pl {
-			return refWalkMax(a[8+pl:])
+	if pl < 0 {
+		return 0, ""
+	}
+	if len(f.payload) < pl {
+		// length smaller than the fixed prefix: a reader may run into the following bytes
+		if len(stream) >= 8+pl {
+			return refWalkMax(stream[8+pl:])
 		}
-		return 0
+		return 0, ""
 	}
 	return refWalkMax(f.payload[pl:])
 }
 
-func refWalkMax(comp []byte) (max uint32) {
-	u := &refInflater{}
-	u.add(comp)
-	var w [4]byte
-	if u.read(w[:]) != nil {
-		return 0
+func refWalkMax(comp []byte) (max uint32, over string) {
+	raw := inflateBytes(comp, 16<<20)
+	if len(raw) < 4 {
+		return 0, ""
 	}
-	n := binary.BigEndian.Uint32(w[:])
+	n := binary.BigEndian.Uint32(raw)
+	raw = raw[4:]
 	if n > 1024 {
-		return 0
+		return 0, ""
 	}
 	for i := uint32(0); i < 2*n; i++ {
-		if u.read(w[:]) != nil {
+		if len(raw) < 4 {
 			return
 		}
-		l := binary.BigEndian.Uint32(w[:])
+		l := binary.BigEndian.Uint32(raw)
+		raw = raw[4:]
 		if l > max {
 			max = l
 		}
-		if l > 1<<20 {
+		if uint64(l) > uint64(len(raw)) {
+			over = "name"
+			if i%2 == 1 {
+				over = "value"
+			}
 			return
 		}
-		if u.read(make([]byte, l)) != nil {
-			return
-		}
+		raw = raw[l:]
 	}
 	return
+}
+
+// inflateAll returns how many bytes a fresh context can get out of comp
+// (at most limit) and how many of them are NUL.
+func inflateAll(comp []byte, limit int) (n int, nul int) {
+	raw := inflateBytes(comp, limit)
+	return len(raw), bytes.Count(raw, []byte{0})
 }
 
 func asciiLower(s string) string {
